@@ -185,7 +185,22 @@ def plan_c14(ctx):
     return r
 
 
+def plan_c13(ctx):
+    r = standard(ctx, [dict(module='MC_Cache'), dict(module='MC_Cache', cfg='MC_Cache_bad', expect='violation', tier='thorough')],
+                 rule='(1) every interleaved history of MC_Cache (2 threads x 2-3 calls over 5 abstract keys) replayed call-by-call on real '
+                      'OS threads with slot bitmaps and instance addresses from the hook; (2) ordered pairs of the 240 memo keys on fresh '
+                      'instances (all 57600 in thorough; colliding-slot candidates + random in quick); (3) 700 public calls cold / warm / '
+                      'after a random history / on 16 concurrent threads; (4) 16 threads released together in 40 (300) fresh processes. '
+                      'distinct_nontrivial = key pairs + history steps + public call contexts',
+                 assumptions=['real thread schedules are sampled by the OS, not enumerated',
+                              'memo-slot predictions of the A5Cache model are reported as drift, not as violations'])
+    s = r['summary']
+    r['distinct_nontrivial'] = int(s.get('key_pairs', 0)) + int(s.get('history_steps', 0)) + int(s.get('public_call_contexts', 0))
+    return r
+
+
 PLANS = {
+    'C13': plan_c13,
     'C14': plan_c14,
     'C17': plan_c17,
     'C12': plan_c12,
